@@ -407,6 +407,18 @@ pub fn start_server<C: dropshot::ServerContext>(
 }
 
 /// start a live HTTPS server (self-signed certificate) for an API
+/// the same servers through the older constructors `HttpServerStarter::new` / `new_with_tls`
+#[allow(deprecated)]
+pub fn start_server_legacy<C: dropshot::ServerContext>(api: ApiDescription<C>, ctx: C, config: dropshot::ConfigDropshot, tls: bool) -> Result<dropshot::HttpServer<C>, String> {
+    let log = discard_log();
+    let starter = if tls {
+        dropshot::HttpServerStarter::new_with_tls(&config, api, ctx, &log, Some(crate::tls::server_tls_config()))
+    } else {
+        dropshot::HttpServerStarter::new(&config, api, ctx, &log)
+    }
+    .map_err(|e| format!("server start: {}", e))?;
+    Ok(starter.start())
+}
 pub fn start_server_tls<C: dropshot::ServerContext>(api: ApiDescription<C>, ctx: C, config: dropshot::ConfigDropshot) -> Result<dropshot::HttpServer<C>, String> {
     dropshot::ServerBuilder::new(api, ctx, discard_log())
         .config(config)
